@@ -370,7 +370,7 @@ func drawAnyFilter(t *rapid.T, names []string) engine.FilterSpec {
 		for i := range out {
 			switch rapid.IntRange(0, 9).Draw(t, lbl+"kind") {
 			case 0:
-				out[i] = "Unknown"
+				out[i] = rapid.SampledFrom([]string{"Unknown", "", "Unknown", "unknown"}).Draw(t, lbl+"unk")
 			case 1:
 				out[i] = rapid.StringMatching(`[A-Za-z_]{0,8}`).Draw(t, lbl+"rnd")
 			case 2:
@@ -410,7 +410,8 @@ func drawAnyFilter(t *rapid.T, names []string) engine.FilterSpec {
 var reDict = []string{`^e_`, `^w_`, `^n_`, `crl`, `.*`, `^$`, `ocsp`, `^e_(sub|ext)_`, `dnsname`, `[0-9]`, `_ca_`, `rsa|dsa`, `^.{10,25}$`, `(?i)RSA`, `^[ew]_ext`, `x`, `e_.*name$`, `[^a-z_0-9]`, `^(w|n)_.*[aeiou]$`, `a.c`}
 
 func pads(t *rapid.T, s string) string {
-	p := []string{"", " ", "  ", "\t", "\n", " \t", "\r\n"}
+	// blanks as strings.TrimSpace (the trimming the registry applies) understands them: ASCII and Unicode White_Space
+	p := []string{"", " ", "  ", "\t", "\n", " \t", "\r\n", "\v\f", "\u0085", "\u00a0", "\u2003", "\u2028", "\u3000", " \u00a0 "}
 	return p[rapid.IntRange(0, len(p)-1).Draw(t, "padl")] + s + p[rapid.IntRange(0, len(p)-1).Draw(t, "padr")]
 }
 
@@ -453,7 +454,8 @@ func TestC08(t *testing.T) {
 			late = append(late, lateName(j))
 		}
 		for _, c := range []c08Case{{Opts: engine.FilterSpec{IncludeNames: []string{lateName(i)}}}, {Opts: engine.FilterSpec{ExcludeNames: []string{"e_ca_country_name_missing"}}},
-			{Opts: engine.FilterSpec{IncludeSources: []string{"Community", "RFC5280", "RFC6960"}}}, {Opts: engine.FilterSpec{IncludeNames: late}}, {Opts: engine.FilterSpec{ExcludeNames: late}}} {
+			{Opts: engine.FilterSpec{IncludeSources: []string{"Community", "RFC5280", "RFC6960"}}}, {Opts: engine.FilterSpec{IncludeNames: late}}, {Opts: engine.FilterSpec{ExcludeNames: late}},
+			{Opts: engine.FilterSpec{ExcludeSources: []string{"Unknown"}}}, {Opts: engine.FilterSpec{IncludeSources: []string{"Unknown"}}}, {Opts: engine.FilterSpec{ExcludeSources: []string{""}}}, {Opts: engine.FilterSpec{IncludeSources: []string{"", "RFC6960"}}}} {
 			c.ProbeN, c.Late = 7, i+1
 			rec.Eval()
 			rec.Class("late_registration")
@@ -502,7 +504,7 @@ var (
 
 // lateKinds is the order in which late lints are registered, one at a time; after each registration the
 // registry is listed and filtered again (every kind once right after a use of the registry, in two orders).
-var lateKinds = []string{"ocsp", "crl", "cert", "ocsp", "cert", "crl"}
+var lateKinds = []string{"ocsp", "crl", "cert", "ocsp", "cert", "crl", "cert", "crl", "ocsp"}
 
 func lateName(i int) string { return fmt.Sprintf("e_verif_late_%d_%s", i, lateKinds[i]) }
 
@@ -517,7 +519,7 @@ func registerLate(n int) {
 		_, _ = g.Filter(lint.FilterOptions{ExcludeNames: []string{"e_ca_country_name_missing"}})
 		// sources chosen so that kinds share a source that no certificate lint of a small view need have
 		// (an OCSP lint citing the BRs next to the BR CRL lints, a CRL lint citing RFC 6960 next to the OCSP lint)
-		md := lint.LintMetadata{Name: lateName(lateCount), Description: "late", Source: []lint.LintSource{lint.CABFBaselineRequirements, lint.RFC6960, lint.Community, lint.RFC5280, lint.AppleRootStorePolicy, lint.MozillaRootStorePolicy}[lateCount%6]}
+		md := lint.LintMetadata{Name: lateName(lateCount), Description: "late", Source: []lint.LintSource{lint.CABFBaselineRequirements, lint.RFC6960, lint.Community, lint.RFC5280, lint.AppleRootStorePolicy, lint.MozillaRootStorePolicy, "", "", ""}[lateCount%9]} // the last three carry no source at all
 		switch lateKinds[lateCount] {
 		case "cert":
 			lint.RegisterCertificateLint(&lint.CertificateLint{LintMetadata: md, Lint: func() lint.CertificateLintInterface { return lateLint{} }})
